@@ -267,12 +267,18 @@ pub fn run(ctx: &Ctx) -> i32 {
     // case-insensitive search: fold-equal but not identical letters (final sigma, long s, Kelvin, micro)
     {
         let al = gen::alphabet("sigma");
-        let n = if ctx.thorough { 200_000 } else { 12_000 };
+        let al_lower = gen::alphabet("sigma_lower");
+        let n = if ctx.thorough { 200_000 } else { 16_000 };
         par_for(&ctx.run, n, |i, st| {
             let mut rng = Rng::new(seed, 0x82_0000 + i as u64);
-            let tcs = gen::family(&mut rng, &al);
+            let tcs = gen::family(&mut rng, if i % 4 < 2 { &al_lower } else { &al });
             st.count("random_sigma_case_insensitive");
-            check_case(ctx, st, &tcs, Settings::new(CI | MODES[1 + i % 3] | if i % 7 == 0 { REP } else { 0 }));
+            let s = Settings::new(CI | MODES[1 + i % 3] | if i % 7 == 0 { REP } else { 0 });
+            if i % 2 == 0 {
+                // the case-sensitive build of the same test cases immediately before, on the same thread
+                let _ = build(&tcs, s.without(CI));
+            }
+            check_case(ctx, st, &tcs, s);
         });
     }
     // random prefix-related families
